@@ -48,7 +48,8 @@ def sized_graph(rng, kind):
 
 
 FNAMES = ["register.nir", "register.nir", "model", "checkpoint_12", "data.h5", "a.b.c", "net v2 (final).nir", "mod\u00e8le.nir",
-          ".hidden", "UPPER.NIR"]
+          ".hidden", "UPPER.NIR", "model.nir.tmp", "x.tmp", "model.bak", "model.nir~", "model.lock", "model.h5.part", "model.nir.swp",
+          "tmp", "model.new", "model.old"]
 
 
 def twin_graphs(rng):
@@ -86,6 +87,7 @@ def gen(rng, tier):
             ops += [{"op": "write", "recipe": V.enc_recipe(a)}, {"op": "read"}]
         cases.append({"kind": "hist", "target": rng.choice(["str", "path"]), "ops": ops, "fname": rng.choice(FNAMES),
                       "rel": rng.random() < 0.3})
+    n_path = 0
     for _ in range(N):
         target = rng.choice(["str", "str", "path", "bytesio", "tempfile"])
         ops = []
@@ -107,7 +109,8 @@ def gen(rng, tier):
                 ops.insert(0, {"op": "read"})
         c = {"kind": "hist", "target": target, "ops": ops}
         if target in ("str", "path"):
-            c["fname"] = rng.choice(FNAMES)
+            c["fname"] = FNAMES[n_path % len(FNAMES)]       # every name at least once per run
+            n_path += 1
             c["pre"] = rng.choice(["none", "none", "none", "empty"])     # an empty placeholder file (mkstemp style) may exist
             c["rel"] = rng.random() < 0.25       # path given RELATIVE to a working directory entered after nir was imported
         cases.append(c)
